@@ -316,6 +316,9 @@ type worldExec struct {
 // guard runs a library call that consumes untrusted or generated data; a panic
 // is a C09 violation, never a harness crash.
 func guard(o *Outcome, entry string, f func()) (panicked bool) {
+	prev := o.inLib
+	o.inLib = entry
+	defer func() { o.inLib = prev }()
 	defer func() {
 		if r := recover(); r != nil {
 			panicked = true
